@@ -18,4 +18,4 @@ one() {
 }
 if [ "${SEED_MATRIX_ONE:-}" = 1 ]; then one "$SEEDS"; exit 0; fi
 # four seeds at a time (xargs; POSIX sh has no `jobs -r`)
-echo $SEEDS | tr ' ' '\n' | SEED_MATRIX_ONE=1 xargs -P 4 -I{} "$0" "$TIER" {}
+echo $SEEDS | tr ' ' '\n' | SEED_MATRIX_ONE=1 xargs -P ${SEED_MATRIX_P:-4} -I{} "$0" "$TIER" {}
